@@ -119,7 +119,7 @@ def run_fullapp_shard(args):
         os.path.join(BUILD, "harness"), n, ops, seed, first, logf), cwd=BUILD)
     if rc != 0:
         return idx, "harness -fullapp failed rc=%d" % rc
-    summ = dict(fullapp_histories=0, fullapp_steps=0, fullapp_transactions=0, fullapp_accepted=0, fullapp_foreign_signatures=0, fullapp_blocks=0, mismatches=0)
+    summ = dict(fullapp_histories=0, fullapp_steps=0, fullapp_transactions=0, fullapp_accepted=0, fullapp_foreign_signatures=0, fullapp_blocks=0, fullapp_app_exports=0, mismatches=0)
     with open(outf, "w") as o:
         for l in open(logf, errors="replace"):
             if l.startswith("FULLDIFF"):
@@ -127,7 +127,7 @@ def run_fullapp_shard(args):
                 summ["mismatches"] += 1
             elif l.startswith("FULLSUMMARY"):
                 d = parse_kv_line(l)
-                for k in ("histories", "steps", "transactions", "accepted", "foreign_signatures", "blocks"):
+                for k in ("histories", "steps", "transactions", "accepted", "foreign_signatures", "blocks", "app_exports"):
                     summ["fullapp_" + k] += int(d.get(k, 0))
         o.write("SUMMARY " + json.dumps(summ) + "\n")
     return idx, None
